@@ -98,8 +98,8 @@ func VerifEncodeQueryResponse(lt LamportTime, id uint32, from string, ack bool, 
 	return raw
 }
 
-// VerifEncodeQuery encodes a messageQuery as it travels on the wire.
-func VerifEncodeQuery(lt LamportTime, id uint32, addr []byte, port uint16, source string, ack bool,
+// VerifEncodeQueryMsg encodes a messageQuery as it travels on the wire.
+func VerifEncodeQueryMsg(lt LamportTime, id uint32, addr []byte, port uint16, source string, ack bool,
 	relayFactor uint8, timeout time.Duration, name string, payload []byte) []byte {
 	m := messageQuery{LTime: lt, ID: id, Addr: addr, Port: port, SourceNode: source, RelayFactor: relayFactor,
 		Timeout: timeout, Name: name, Payload: payload}
@@ -113,8 +113,8 @@ func VerifEncodeQuery(lt LamportTime, id uint32, addr []byte, port uint16, sourc
 	return raw
 }
 
-// VerifEncodeLeave encodes a leave intent.
-func VerifEncodeLeave(lt LamportTime, node string) []byte {
+// VerifEncodeLeaveIntent encodes a leave intent.
+func VerifEncodeLeaveIntent(lt LamportTime, node string) []byte {
 	raw, err := encodeMessage(messageLeaveType, &messageLeave{LTime: lt, Node: node}, false)
 	if err != nil {
 		panic(err)
